@@ -262,7 +262,7 @@ Proof.
 Qed.
 End FixupL.
 
-(* the same for the C entry point: supernodes 0..nsuper visited in index order *)
+(* the compaction in supernode-number order (the code before the repair of F1) is correct under the ordering hypothesis *)
 Theorem fixupL_correct_if_ordered : forall n perm_r G,
   1 < n ->
   let nsuper := zn (g_supno G) n in
@@ -271,11 +271,11 @@ Theorem fixupL_correct_if_ordered : forall n perm_r G,
   (forall f, In f fsl -> 0 <= f < zlen (g_xlsub G) /\ f < zlen (g_xlsub_end G)) ->
   ordered (g_lsub G) (g_xlsub G) (g_xlsub_end G) 0 fsl ->
   ~ In n fsl -> 0 <= n < zlen (g_xlsub G) ->
-  let '(lsub', xl', xe') := fixupL n perm_r G in
+  let '(lsub', xl', xe') := fixupL_number_order n perm_r G in
   fix_spec perm_r (g_lsub G) (g_xlsub G) (g_xlsub_end G) fsl 0 lsub' xl' xe' /\
   zn xl' n = total (g_xlsub G) (g_xlsub_end G) fsl.
 Proof.
-  intros n perm_r G Hn nsuper fsl Hnd Hin Hord Hnn Hnr. unfold fixupL.
+  intros n perm_r G Hn nsuper fsl Hnd Hin Hord Hnn Hnr. unfold fixupL_number_order.
   destruct (Z.leb_spec n 1) as [Hle|_]; [lia|]. fold nsuper.
   rewrite <- (fold_left_map _ _ _ (fixupL_sn perm_r) (zn (g_xsup G))). fold fsl.
   pose proof (fixupL_loop_correct_if_ordered perm_r (g_lsub G) (g_xlsub G) (g_xlsub_end G) fsl Hnd Hin Hord) as H.
@@ -288,106 +288,218 @@ Proof.
 Qed.
 
 (* ------------------------------------------------------------------------------------------------ *)
+(* ------------------------------------------------------------------------------------------------ *)
+(* the insertion sort delivers the supernodes in storage order                                       *)
+Require Import Sorting.Permutation Sorting.Sorted.
+
+Section Sort.
+Variable key : Z -> Z.
+Definition desc (a b : Z) : Prop := key b <= key a.
+Definition asc (a b : Z) : Prop := key a <= key b.
+
+Lemma ins_rev_perm : forall k r, Permutation (k :: r) (ins_rev key k r).
+Proof.
+  induction r as [|h t IH]; simpl; auto. destruct (key k <? key h); auto.
+  eapply perm_trans; [apply perm_swap|]. apply perm_skip. exact IH.
+Qed.
+
+Lemma ins_rev_sorted : forall k r, StronglySorted desc r -> StronglySorted desc (ins_rev key k r).
+Proof.
+  induction r as [|h t IH]; intros Hs; simpl.
+  - constructor; constructor.
+  - inversion Hs as [|? ? Ht Hall]; subst. destruct (Z.ltb_spec (key k) (key h)).
+    + constructor; auto. apply Forall_forall. intros x Hx.
+      apply (Permutation_in _ (Permutation_sym (ins_rev_perm k t))) in Hx. destruct Hx as [<-|Hx].
+      * unfold desc. lia.
+      * rewrite Forall_forall in Hall. auto.
+    + constructor; auto. constructor.
+      * unfold desc. lia.
+      * rewrite Forall_forall in *. intros x Hx. specialize (Hall x Hx). unfold desc in *. lia.
+Qed.
+
+Lemma StronglySorted_rev_desc : forall r, StronglySorted desc r -> StronglySorted asc (rev r).
+Proof.
+  induction r as [|h t IH]; intros Hs; simpl. constructor.
+  inversion Hs as [|? ? Ht Hall]; subst. specialize (IH Ht).
+  assert (Happ : forall l1 l2, StronglySorted asc l1 -> StronglySorted asc l2 ->
+                   (forall a b, In a l1 -> In b l2 -> asc a b) -> StronglySorted asc (l1 ++ l2)).
+  { induction l1 as [|a l1 IH1]; intros l2 H1 H2 H12; simpl; auto.
+    inversion H1 as [|? ? H1t H1all]; subst. constructor.
+    - apply IH1; auto. intros; apply H12; simpl; auto.
+    - apply Forall_forall. intros x Hx. apply in_app_or in Hx. destruct Hx as [Hx|Hx].
+      + rewrite Forall_forall in H1all. auto.
+      + apply H12; simpl; auto. }
+  apply Happ; auto.
+  - constructor; constructor.
+  - intros a b Ha Hb. destruct Hb as [<-|[]]. apply in_rev in Ha. rewrite Forall_forall in Hall. apply (Hall a Ha).
+Qed.
+
+Lemma storage_order_spec : forall nsuper,
+  Permutation (zrange 0 (nsuper + 1)) (storage_order key nsuper) /\ StronglySorted asc (storage_order key nsuper).
+Proof.
+  intros nsuper. unfold storage_order.
+  assert (H : forall l r, StronglySorted desc r ->
+             Permutation (rev l ++ r) (fold_left (fun r k => ins_rev key k r) l r) /\
+             StronglySorted desc (fold_left (fun r k => ins_rev key k r) l r)).
+  { induction l as [|a l IH]; intros r Hr; simpl; auto.
+    destruct (IH (ins_rev key a r) (ins_rev_sorted a r Hr)) as [P S]. split; auto.
+    eapply perm_trans; [|exact P]. rewrite <- app_assoc. apply Permutation_app_head. simpl. apply ins_rev_perm. }
+  destruct (H (zrange 0 (nsuper + 1)) [] ltac:(constructor)) as [P S]. rewrite app_nil_r in P. split.
+  - eapply perm_trans; [apply Permutation_rev|]. eapply perm_trans; [exact P|]. apply Permutation_rev.
+  - apply StronglySorted_rev_desc. exact S.
+Qed.
+End Sort.
+
+Lemma NoDup_map_inj_in : forall (f : Z -> Z) l, (forall a b, In a l -> In b l -> f a = f b -> a = b) -> NoDup l -> NoDup (map f l).
+Proof.
+  induction l as [|a l IH]; intros Hinj Hnd; simpl. constructor.
+  inversion Hnd; subst. constructor.
+  - intros Hin. apply in_map_iff in Hin. destruct Hin as (b & Hb & Hbl).
+    assert (b = a) by (apply Hinj; simpl; auto). subst. contradiction.
+  - apply IH; auto. intros x y Hx Hy. apply Hinj; simpl; auto.
+Qed.
+
+Lemma StronglySorted_map : forall (f : Z -> Z) (R : Z -> Z -> Prop) l,
+  StronglySorted (fun a b => R (f a) (f b)) l -> StronglySorted R (map f l).
+Proof.
+  induction l as [|a l IH]; intros H; simpl. constructor.
+  inversion H as [|? ? Hs Hall]; subst. constructor; auto.
+  rewrite Forall_forall in *. intros y Hy. apply in_map_iff in Hy. destruct Hy as (x & <- & Hx). auto.
+Qed.
+
+(* sorted by start position + pairwise disjoint + non-empty regions = stored in this order *)
+Lemma sorted_disjoint_ordered : forall lsub0 xl0 xe0 fsl lo,
+  StronglySorted (fun a b => zn xl0 a <= zn xl0 b) fsl ->
+  (forall f, In f fsl -> lo <= zn xl0 f /\ zn xl0 f < zn xe0 f /\ zn xe0 f <= zlen lsub0) ->
+  (forall f g, In f fsl -> In g fsl -> f = g \/ disjoint (zn xl0 f) (zn xe0 f) (zn xl0 g) (zn xe0 g)) ->
+  NoDup fsl ->
+  ordered lsub0 xl0 xe0 lo fsl.
+Proof.
+  intros lsub0 xl0 xe0. induction fsl as [|f rest IH]; intros lo Hs Hr Hd Hnd; simpl; auto.
+  inversion Hs as [|? ? Hst Hall]; subst. inversion Hnd as [|? ? Hnotin Hnd']; subst.
+  destruct (Hr f (or_introl eq_refl)) as (R1 & R2 & R3).
+  split; [lia|]. split; [lia|]. split; [lia|].
+  apply IH; auto.
+  - intros g Hg. destruct (Hr g (or_intror Hg)) as (G1 & G2 & G3). split; [|auto].
+    rewrite Forall_forall in Hall. specialize (Hall g Hg). simpl in Hall.
+    destruct (Hd f g (or_introl eq_refl) (or_intror Hg)) as [->|D]; [contradiction|].
+    unfold disjoint in D. lia.
+  - intros a b Ha Hb. apply Hd; right; auto.
+Qed.
+
+(* fixupL_correct (no ordering hypothesis): the subscript regions only have to be pairwise disjoint, non-empty and inside lsub;
+   every supernode then owns exactly its original list mapped through perm_r, in consecutive extents taken in storage order *)
+Theorem fixupL_correct : forall n perm_r G,
+  1 < n ->
+  let nsuper := zn (g_supno G) n in
+  let xs := zn (g_xsup G) in
+  let fsl := map xs (storage_order (fun k => zn (g_xlsub G) (xs k)) nsuper) in
+  (forall s t, 0 <= s <= nsuper -> 0 <= t <= nsuper -> xs s = xs t -> s = t) ->
+  (forall s, 0 <= s <= nsuper -> 0 <= xs s < zlen (g_xlsub G) /\ xs s < zlen (g_xlsub_end G) /\ xs s <> n) ->
+  (forall s, 0 <= s <= nsuper -> 0 <= zn (g_xlsub G) (xs s) /\ zn (g_xlsub G) (xs s) < zn (g_xlsub_end G) (xs s)
+                                 /\ zn (g_xlsub_end G) (xs s) <= zlen (g_lsub G)) ->
+  (forall s t, 0 <= s <= nsuper -> 0 <= t <= nsuper -> s = t \/
+     disjoint (zn (g_xlsub G) (xs s)) (zn (g_xlsub_end G) (xs s)) (zn (g_xlsub G) (xs t)) (zn (g_xlsub_end G) (xs t))) ->
+  0 <= n < zlen (g_xlsub G) ->
+  let '(lsub', xl', xe') := fixupL n perm_r G in
+  fix_spec perm_r (g_lsub G) (g_xlsub G) (g_xlsub_end G) fsl 0 lsub' xl' xe' /\
+  zn xl' n = total (g_xlsub G) (g_xlsub_end G) fsl /\
+  (forall s, 0 <= s <= nsuper -> In (xs s) fsl).
+Proof.
+  intros n perm_r G Hn nsuper xs fsl Hinj Hidx Hreg Hdis Hnr.
+  destruct (storage_order_spec (fun k => zn (g_xlsub G) (xs k)) nsuper) as [Hperm Hsort].
+  set (ord := storage_order (fun k => zn (g_xlsub G) (xs k)) nsuper) in *.
+  assert (Hord_in : forall k, In k ord <-> 0 <= k <= nsuper).
+  { intros k. split; intros H.
+    - apply (Permutation_in _ (Permutation_sym Hperm)) in H. apply zrange_In in H. lia.
+    - apply (Permutation_in _ Hperm). apply zrange_In. lia. }
+  assert (Hnd_ord : NoDup ord).
+  { apply (Permutation_NoDup Hperm). unfold zrange. apply FinFun.Injective_map_NoDup. intros a b; lia. apply seq_NoDup. }
+  assert (Hfsl_in : forall f, In f fsl <-> exists s, 0 <= s <= nsuper /\ f = xs s).
+  { intros f. unfold fsl. rewrite in_map_iff. split.
+    - intros (k & <- & Hk). exists k. split; auto. apply Hord_in; auto.
+    - intros (k & Hk & ->). exists k. split; auto. apply Hord_in; auto. }
+  assert (Hnd : NoDup fsl).
+  { unfold fsl. apply NoDup_map_inj_in; auto. intros a b Ha Hb. apply Hinj; apply Hord_in; auto. }
+  assert (Hin : forall f, In f fsl -> 0 <= f < zlen (g_xlsub G) /\ f < zlen (g_xlsub_end G)).
+  { intros f Hf. apply Hfsl_in in Hf. destruct Hf as (k & Hk & ->). destruct (Hidx k Hk) as (A & B & C). auto. }
+  assert (Hnn : ~ In n fsl).
+  { intros Hf. apply Hfsl_in in Hf. destruct Hf as (k & Hk & E). destruct (Hidx k Hk) as (A & B & C). congruence. }
+  assert (Hord : ordered (g_lsub G) (g_xlsub G) (g_xlsub_end G) 0 fsl).
+  { apply sorted_disjoint_ordered; auto.
+    - unfold fsl. apply StronglySorted_map. exact Hsort.
+    - intros f Hf. apply Hfsl_in in Hf. destruct Hf as (k & Hk & ->). apply Hreg; auto.
+    - intros f g Hf Hg. apply Hfsl_in in Hf, Hg. destruct Hf as (k & Hk & ->). destruct Hg as (k' & Hk' & ->).
+      destruct (Hdis k k' Hk Hk') as [->|D]; auto. }
+  unfold fixupL. destruct (Z.leb_spec n 1) as [Hle|_]; [lia|]. fold nsuper. fold xs. fold ord.
+  change (fun (st : list Z * list Z * list Z * Z) (i : Z) => fixupL_sn perm_r st (zn (g_xsup G) i))
+    with (fun (st : list Z * list Z * list Z * Z) (i : Z) => fixupL_sn perm_r st (xs i)).
+  rewrite <- (fold_left_map _ _ _ (fixupL_sn perm_r) xs). fold fsl.
+  pose proof (fixupL_loop_correct_if_ordered perm_r (g_lsub G) (g_xlsub G) (g_xlsub_end G) fsl Hnd Hin Hord) as H.
+  destruct (fold_left (fixupL_sn perm_r) fsl (g_lsub G, g_xlsub G, g_xlsub_end G, 0)) as [[[lsF xlF] xeF] nlF].
+  destruct H as (H1 & H2 & H3 & H4 & L1 & L2 & L3). split; [|split].
+  - apply (fix_spec_frame perm_r (g_lsub G) (g_xlsub G) (g_xlsub_end G) fsl 0 lsF xlF xeF); auto.
+    + intros f Hf. split; auto. apply zn_zupd_other. intros ->. contradiction.
+    + apply (ordered_rlen_nonneg (g_lsub G) (g_xlsub G) (g_xlsub_end G) fsl 0). exact Hord.
+  - rewrite zn_zupd_same by lia. exact H1.
+  - intros k Hk. apply Hfsl_in. exists k. auto.
+Qed.
+
 (* F1: when the storage order of the subscript lists differs from the supernode-number order (the numbers come from
-   NewNsuper under NSUPER_LOCK, the storage from Glu_alloc(LSUB) under LLOCK) the in-place compaction overwrites a list
-   that has not been read yet.  Three single-column supernodes 0,1,2 whose lists are stored in the order 1,0,2:          *)
+   NewNsuper under NSUPER_LOCK, the storage from Glu_alloc(LSUB) under LLOCK) a compaction in NUMBER order -- the code before
+   the repair -- overwrites a list that has not been read yet.  Three single-column supernodes 0,1,2 whose lists are stored
+   in the order 1,0,2:                                                                                                  *)
 Definition f1_G : glu :=
   mkGlu [0; 1; 2] [1; 2; 3] [0; 1; 2; 2]
         [1; 2;  0; 2;  2; 0]         (* lsub: list of supernode 1 = {1,2} at 0..1, of supernode 0 = {0,2} at 2..3, of supernode 2 at 4..5 *)
         [2; 0; 4; 0] [4; 2; 6] 0.
 Definition f1_perm : list Z := [0; 1; 2].
 
-Theorem fixupL_unordered_refuted :
+Theorem fixupL_number_order_refuted :
   exists n perm_r G,
     (* the three regions are disjoint and inside lsub -- only their order differs from the supernode numbers *)
     (forall s t, In s [0; 1; 2] -> In t [0; 1; 2] -> s = t \/
        disjoint (zn (g_xlsub G) s) (zn (g_xlsub_end G) s) (zn (g_xlsub G) t) (zn (g_xlsub_end G) t)) /\
-    let '(lsub', xl', xe') := fixupL n perm_r G in
-    (* supernode 1's list after fixupL is not its original list mapped through perm_r *)
-    exists t, 0 <= t < zn (g_xlsub_end G) 1 - zn (g_xlsub G) 1 /\
-              zn lsub' (zn xl' 1 + t) <> zn perm_r (zn (g_lsub G) (zn (g_xlsub G) 1 + t)).
+    (let '(lsub', xl', xe') := fixupL_number_order n perm_r G in
+     (* supernode 1's list after the number-order compaction is not its original list mapped through perm_r *)
+     exists t, 0 <= t < zn (g_xlsub_end G) 1 - zn (g_xlsub G) 1 /\
+               zn lsub' (zn xl' 1 + t) <> zn perm_r (zn (g_lsub G) (zn (g_xlsub G) 1 + t))) /\
+    (* while the storage-order compaction that is in the tree keeps every list *)
+    (let '(lsub', xl', xe') := fixupL n perm_r G in
+     forall s t, In s [0; 1; 2] -> In t [0; 1] ->
+                 zn lsub' (zn xl' s + t) = zn perm_r (zn (g_lsub G) (zn (g_xlsub G) s + t))).
 Proof.
-  exists 3, f1_perm, f1_G. split.
+  exists 3, f1_perm, f1_G. split; [|split].
   - intros s t Hs Ht. simpl in Hs, Ht.
     destruct Hs as [<-|[<-|[<-|[]]]]; destruct Ht as [<-|[<-|[<-|[]]]]; auto; right; vm_compute; intuition congruence.
   - vm_compute. exists 0. split; [split; congruence|]. congruence.
+  - intros s t Hs Ht. simpl in Hs, Ht.
+    destruct Hs as [<-|[<-|[<-|[]]]]; destruct Ht as [<-|[<-|[]]]; vm_compute; reflexivity.
 Qed.
 
 (* ------------------------------------------------------------------------------------------------ *)
-(* consequences of wf_LU used by the solves                                                          *)
+(* consequences of wf_LU                                                                             *)
 Section Consequences.
 Variables (n : Z) (L : scpZ) (U : ncpZ) (perm_r perm_c : list Z).
 Hypothesis WF : wf_LU n L U perm_r perm_c.
 
 Tactic Notation "clause" integer(k) := let H := fresh in pose proof WF as H; unfold wf_LU, wf_clauses in H; simpl andl in H; do k (destruct H as [_ H]); destruct H as [H _]; exact H.
 
+Lemma wf_ranges : bounded (fun s => (0 <= fst_col L s /\ fst_col L s < end_col L s) /\ end_col L s <= n) (ns L).
+Proof. clause 9. Qed.
 Lemma wf_c2s : bounded (fun j => (0 <= sup_of L j /\ sup_of L j < ns L) /\ (fst_col L (sup_of L j) <= j /\ j < end_col L (sup_of L j))) n.
-Proof. clause 13. Qed.
-Lemma wf_below : bounded (fun s => bounded (fun t => end_col L s <= zn (L_rowind L) (rbeg L s + width L s + t)
-                                      /\ zn (L_rowind L) (rbeg L s + width L s + t) < n) (nsupr L s - width L s)) (ns L).
-Proof. clause 16. Qed.
-Lemma wf_urows : bounded (fun j => bounded (fun t => 0 <= zn (U_rowind U) (zn (U_colbeg U) j + t)
-                                      /\ zn (U_rowind U) (zn (U_colbeg U) j + t) < fst_col L (sup_of L j))
-                            (zn (U_colend U) j - zn (U_colbeg U) j)) n.
-Proof. clause 19. Qed.
-Lemma wf_nonempty : bounded (fun s => fst_col L s < end_col L s) (ns L).
 Proof. clause 10. Qed.
-Lemma wf_contig : bounded (fun s => end_col L s = fst_col L (s + 1)) (ns L - 1).
+Lemma wf_s2c : bounded (fun s => bounded (fun c => sup_of L (fst_col L s + c) = s) (width L s)) (ns L).
 Proof. clause 11. Qed.
 
-(* first columns increase with the supernode number *)
-Lemma fst_col_mono : forall s d, 0 <= s -> 0 <= d -> s + d < ns L -> end_col L s <= end_col L (s + d).
+(* the supernodes partition the columns: every column lies in exactly one supernode range *)
+Theorem supernodes_partition : forall j, 0 <= j < n ->
+  exists s, 0 <= s < ns L /\ fst_col L s <= j < end_col L s /\
+            forall t, 0 <= t < ns L -> fst_col L t <= j < end_col L t -> t = s.
 Proof.
-  intros s d Hs Hd. pattern d. apply natlike_ind; auto.
-  - intros _. rewrite Z.add_0_r. lia.
-  - intros x Hx IH Hlt. specialize (IH ltac:(lia)).
-    pose proof (wf_contig (s + x) ltac:(lia)) as Hc. simpl in Hc.
-    pose proof (wf_nonempty (s + Z.succ x) ltac:(lia)) as Hne. simpl in Hne.
-    replace (s + Z.succ x) with (s + x + 1) in * by lia. lia.
-Qed.
-
-(* visiting supernodes in index order respects the dependency order of the solves:
-   every row below the diagonal block of supernode s belongs to a supernode with a larger number ... *)
-Theorem L_rows_in_later_supernodes : forall s t, 0 <= s < ns L -> 0 <= t < nsupr L s - width L s ->
-  s < sup_of L (zn (L_rowind L) (rbeg L s + width L s + t)).
-Proof.
-  intros s t Hs Ht. destruct (wf_below s Hs t Ht) as [Hlo Hhi].
-  set (r := zn (L_rowind L) (rbeg L s + width L s + t)) in *.
-  assert (Hr : 0 <= r < n). { pose proof (wf_nonempty s Hs). simpl in H. split; [|lia].
-    assert (0 <= fst_col L s). { destruct (Z_lt_le_dec s 1).
-      - assert (s = 0) by lia. subst. pose proof WF as W. unfold wf_LU, wf_clauses in W. simpl andl in W.
-        do 9 (destruct W as [_ W]). destruct W as [W _]. lia.
-      - pose proof (wf_contig (s - 1) ltac:(lia)) as Hc. simpl in Hc. replace (s - 1 + 1) with s in Hc by lia.
-        pose proof (wf_nonempty (s - 1) ltac:(lia)) as Hn1. simpl in Hn1.
-        pose proof (fst_col_mono 0 (s - 1) ltac:(lia) ltac:(lia) ltac:(lia)) as Hm. simpl in Hm.
-        pose proof (wf_nonempty 0 ltac:(lia)) as Hn0. simpl in Hn0.
-        assert (fst_col L 0 = 0). { pose proof WF as W. unfold wf_LU, wf_clauses in W. simpl andl in W.
-          do 9 (destruct W as [_ W]). destruct W as [W _]. exact W. }
-        lia. }
-    lia. }
-  destruct (wf_c2s r Hr) as [[Hs1 Hs2] [Hf He]].
-  destruct (Z_lt_le_dec s (sup_of L r)) as [|Hge]; auto. exfalso.
-  pose proof (fst_col_mono (sup_of L r) (s - sup_of L r) ltac:(lia) ltac:(lia) ltac:(lia)) as Hm.
-  replace (sup_of L r + (s - sup_of L r)) with s in Hm by lia. lia.
-Qed.
-
-(* ... and every row of column j of U belongs to a supernode with a smaller number than j's *)
-Theorem U_rows_in_earlier_supernodes : forall j t, 0 <= j < n -> 0 <= t < zn (U_colend U) j - zn (U_colbeg U) j ->
-  0 <= fst_col L (sup_of L j) ->
-  sup_of L (zn (U_rowind U) (zn (U_colbeg U) j + t)) < sup_of L j.
-Proof.
-  intros j t Hj Ht Hf0. destruct (wf_urows j Hj t Ht) as [Hlo Hhi].
-  set (r := zn (U_rowind U) (zn (U_colbeg U) j + t)) in *.
-  destruct (wf_c2s j Hj) as [[Hs1 Hs2] [Hf He]].
-  assert (Hr : 0 <= r < n) by lia.
-  destruct (wf_c2s r Hr) as [[Hr1 Hr2] [Hrf Hre]].
-  destruct (Z_lt_le_dec (sup_of L r) (sup_of L j)) as [|Hge]; auto. exfalso.
-  pose proof (fst_col_mono (sup_of L j) (sup_of L r - sup_of L j) ltac:(lia) ltac:(lia) ltac:(lia)) as Hm.
-  replace (sup_of L j + (sup_of L r - sup_of L j)) with (sup_of L r) in Hm by lia.
-  destruct (Z.eq_dec (sup_of L r) (sup_of L j)) as [E|E]. rewrite E in *. lia.
-  pose proof (wf_contig (sup_of L r - 1) ltac:(lia)) as Hc. simpl in Hc. replace (sup_of L r - 1 + 1) with (sup_of L r) in Hc by lia.
-  pose proof (fst_col_mono (sup_of L j) (sup_of L r - 1 - sup_of L j) ltac:(lia) ltac:(lia) ltac:(lia)) as Hm2.
-  replace (sup_of L j + (sup_of L r - 1 - sup_of L j)) with (sup_of L r - 1) in Hm2 by lia. lia.
+  intros j Hj. destruct (wf_c2s j Hj) as [Hs Hr]. exists (sup_of L j). split; [lia|]. split; [lia|].
+  intros t Ht Hjt. pose proof (wf_s2c t Ht (j - fst_col L t) ltac:(unfold width; lia)) as H. simpl in H.
+  replace (fst_col L t + (j - fst_col L t)) with j in H by lia. auto.
 Qed.
 End Consequences.
 
